@@ -6,6 +6,9 @@ package gose
 
 import (
 	"fmt"
+	"go/types"
+
+	"golang.org/x/tools/go/ssa"
 	"sort"
 	"strings"
 	"time"
@@ -41,31 +44,147 @@ type Exec struct {
 	Inputs  []*smt.Expr // declared symbolic inputs (model variables)
 	nInput  int
 
-	Viol     []Violation
-	Incon    []string
-	Steps    int
-	MaxSteps int
-	Asserts  int
-	Proved   int
-	dead     bool // path became infeasible (assumption unsatisfiable)
-	budgetHit bool
-	permNext  string
-	expected []string // substrings of panics the harness declared as expected
-	sumCache map[string]*summary
-	inSummary int
-	Notes    []string
+	Viol          []Violation
+	Incon         []string
+	Steps         int
+	MaxSteps      int
+	Asserts       int
+	Proved        int
+	dead          bool // path became infeasible (assumption unsatisfiable)
+	budgetHit     bool
+	permNext      string
+	expected      []string // substrings of panics the harness declared as expected
+	sumCache      map[string]*summary
+	known         map[int]bool          // term id -> truth value implied by the path condition (syntactic)
+	dom           map[string]*[4]uint64 // feasible values of 8-bit inputs under the single-variable constraints
+	multi         map[string]bool       // inputs occurring in a constraint over several inputs
+	varsOf        map[int][]string
+	deferred      []deferredAssert
+	FastDecisions int
+	inputSort     map[string]smt.Sort
+	W             *Worker
+	inSummary     int
+	Notes         []string
 }
 
 type pathAbort struct{ reason string }
 
+type deferredAssert struct {
+	cond *smt.Expr
+	msg  string
+	path []decision
+}
+
 func newExec(c *smt.Ctx, p *smt.Prover, prefix []decision, maxSteps int) *Exec {
-	return &Exec{C: c, P: p, prefix: prefix, MaxSteps: maxSteps}
+	return &Exec{C: c, P: p, prefix: prefix, MaxSteps: maxSteps, known: map[int]bool{}, dom: map[string]*[4]uint64{}, multi: map[string]bool{}, varsOf: map[int][]string{}, inputSort: map[string]smt.Sort{}}
 }
 
 func (x *Exec) check(extra ...*smt.Expr) (smt.Result, *smt.Model) {
 	as := append(append([]*smt.Expr{}, x.PC...), extra...)
 	r, m, _ := x.P.Check(as, x.Inputs)
 	return r, m
+}
+
+// vars lists the input variables of a term (cached).
+func (x *Exec) vars(e *smt.Expr) []string {
+	if v, ok := x.varsOf[e.ID]; ok {
+		return v
+	}
+	m := map[string]smt.Sort{}
+	smt.Vars(e, m)
+	var out []string
+	for k := range m {
+		out = append(out, k)
+	}
+	sort.Strings(out)
+	x.varsOf[e.ID] = out
+	return out
+}
+
+func (x *Exec) domain(v string) *[4]uint64 {
+	d, ok := x.dom[v]
+	if !ok {
+		d = &[4]uint64{^uint64(0), ^uint64(0), ^uint64(0), ^uint64(0)}
+		x.dom[v] = d
+	}
+	return d
+}
+
+// is8 reports whether v is one of the declared 8-bit inputs.
+func (x *Exec) is8(e *smt.Expr, v string) bool {
+	s, ok := x.inputSort[v]
+	return ok && s.K == smt.KBV && s.W == 8
+}
+
+// addPC appends a constraint and maintains the syntactic fact cache and the byte domains.
+func (x *Exec) addPC(cond *smt.Expr) {
+	x.PC = append(x.PC, cond)
+	x.learn(cond)
+}
+
+func (x *Exec) learn(cond *smt.Expr) {
+	switch cond.Op {
+	case smt.ONot:
+		x.known[cond.Args[0].ID] = false
+		x.known[cond.ID] = true
+	case smt.OAnd:
+		x.known[cond.ID] = true
+		for _, a := range cond.Args {
+			x.learn(a)
+		}
+		return
+	default:
+		x.known[cond.ID] = true
+	}
+	vs := x.vars(cond)
+	if len(vs) == 1 && x.is8(cond, vs[0]) {
+		d := x.domain(vs[0])
+		env := map[string]uint64{}
+		for val := 0; val < 256; val++ {
+			if d[val/64]&(1<<uint(val%64)) == 0 {
+				continue
+			}
+			env[vs[0]] = uint64(val)
+			r, ok := smt.Eval(cond, env)
+			if ok && r == 0 {
+				d[val/64] &^= 1 << uint(val%64)
+			}
+		}
+	} else if len(vs) > 1 {
+		for _, v := range vs {
+			x.multi[v] = true
+		}
+	}
+}
+
+// fastFeasible decides feasibility of cond and of its negation for conditions over a single
+// 8-bit input that is not tied to other inputs: a complete enumeration of its 256 values.
+func (x *Exec) fastFeasible(cond *smt.Expr) (canT, canF, ok bool) {
+	vs := x.vars(cond)
+	if len(vs) != 1 || x.multi[vs[0]] || !x.is8(cond, vs[0]) {
+		return false, false, false
+	}
+	d := x.domain(vs[0])
+	env := map[string]uint64{}
+	for val := 0; val < 256; val++ {
+		if d[val/64]&(1<<uint(val%64)) == 0 {
+			continue
+		}
+		env[vs[0]] = uint64(val)
+		r, evok := smt.Eval(cond, env)
+		if !evok {
+			return false, false, false
+		}
+		if r == 1 {
+			canT = true
+		} else {
+			canF = true
+		}
+		if canT && canF {
+			break
+		}
+	}
+	return canT, canF, true
 }
 
 // Decide resolves a branch on a boolean term.
@@ -77,43 +196,60 @@ func (x *Exec) Decide(cond *smt.Expr, what string) bool {
 	if cond.IsFalse() {
 		return false
 	}
+	if v, ok := x.known[cond.ID]; ok {
+		return v
+	}
 	if x.pos < len(x.prefix) {
 		d := x.prefix[x.pos]
 		x.pos++
 		x.taken = append(x.taken, d)
 		if d.Taken {
-			x.PC = append(x.PC, cond)
+			x.addPC(cond)
 		} else {
-			x.PC = append(x.PC, c.Not(cond))
+			x.addPC(c.Not(cond))
 		}
 		return d.Taken
 	}
-	rt, _ := x.check(cond)
-	if rt == smt.Unknown {
-		x.Incon = append(x.Incon, "branch feasibility unknown: "+what)
-		panic(pathAbort{"solver unknown at " + what})
+	canT, canF, fast := x.fastFeasible(cond)
+	if fast {
+		x.FastDecisions++
+	} else {
+		rt, _ := x.check(cond)
+		if rt == smt.Unknown {
+			x.Incon = append(x.Incon, "branch feasibility unknown: "+what)
+			panic(pathAbort{"solver unknown at " + what})
+		}
+		canT = rt == smt.Sat
+		if !canT {
+			canF = true
+		} else {
+			rf, _ := x.check(c.Not(cond))
+			if rf == smt.Unknown {
+				x.Incon = append(x.Incon, "branch feasibility unknown: "+what)
+				panic(pathAbort{"solver unknown at " + what})
+			}
+			canF = rf == smt.Sat
+		}
 	}
-	if rt == smt.Unsat {
+	switch {
+	case canT && canF:
+		alt := append(append([]decision{}, x.taken...), decision{Taken: false})
+		x.pending = append(x.pending, alt)
+		x.taken = append(x.taken, decision{Taken: true})
+		x.addPC(cond)
+		return true
+	case canT:
+		x.taken = append(x.taken, decision{Taken: true, Forced: true})
+		x.addPC(cond)
+		return true
+	case canF:
 		x.taken = append(x.taken, decision{Taken: false, Forced: true})
-		x.PC = append(x.PC, c.Not(cond))
+		x.addPC(c.Not(cond))
 		return false
 	}
-	rf, _ := x.check(c.Not(cond))
-	if rf == smt.Unknown {
-		x.Incon = append(x.Incon, "branch feasibility unknown: "+what)
-		panic(pathAbort{"solver unknown at " + what})
-	}
-	if rf == smt.Unsat {
-		x.taken = append(x.taken, decision{Taken: true, Forced: true})
-		x.PC = append(x.PC, cond)
-		return true
-	}
-	// both feasible: take true now, queue false
-	alt := append(append([]decision{}, x.taken...), decision{Taken: false})
-	x.pending = append(x.pending, alt)
-	x.taken = append(x.taken, decision{Taken: true})
-	x.PC = append(x.PC, cond)
-	return true
+	// neither side: the path condition itself is infeasible
+	x.dead = true
+	panic(pathAbort{"assumption unsatisfiable"})
 }
 
 // Concretize picks a concrete value for a bit-vector term (forking over all feasible values,
@@ -130,10 +266,10 @@ func (x *Exec) Concretize(e *smt.Expr, what string) uint64 {
 			x.taken = append(x.taken, d)
 			eq := c.Eq(e, c.BV(e.Sort.W, d.Val))
 			if d.Taken {
-				x.PC = append(x.PC, eq)
+				x.addPC(eq)
 				return d.Val
 			}
-			x.PC = append(x.PC, c.Not(eq))
+			x.addPC(c.Not(eq))
 			continue
 		}
 		as := append([]*smt.Expr{}, x.PC...)
@@ -160,7 +296,7 @@ func (x *Exec) Concretize(e *smt.Expr, what string) uint64 {
 		} else {
 			x.taken = append(x.taken, decision{Taken: true, Val: v, IsVal: true, Forced: true})
 		}
-		x.PC = append(x.PC, eq)
+		x.addPC(eq)
 		return v
 	}
 }
@@ -170,7 +306,8 @@ func (x *Exec) Assume(cond *smt.Expr) {
 	if cond.IsTrue() {
 		return
 	}
-	x.PC = append(x.PC, cond)
+	x.Flush()
+	x.addPC(cond)
 	if x.pos >= len(x.prefix) || cond.IsFalse() {
 		if r, _ := x.check(); r == smt.Unsat {
 			x.dead = true
@@ -179,27 +316,50 @@ func (x *Exec) Assume(cond *smt.Expr) {
 	}
 }
 
-// Assert checks that cond holds for every input on this path; a counter-model is a violation.
+// Assert records that cond must hold for every input on this path. Assertions are decided in
+// batches (one solver query for the conjunction at the end of the path or before the next
+// assumption): sound because every input of the path so far continues on some explored path.
 func (x *Exec) Assert(cond *smt.Expr, msg string) {
 	x.Asserts++
 	if cond.IsTrue() {
 		x.Proved++
 		return
 	}
-	r, m := x.check(x.C.Not(cond))
-	switch r {
-	case smt.Unsat:
+	if v, ok := x.known[cond.ID]; ok && v {
 		x.Proved++
-	case smt.Sat:
-		x.Viol = append(x.Viol, Violation{Kind: "assert", Msg: msg, Model: modelMap(m), Path: append([]decision{}, x.taken...)})
-		// continue under the assumption that it holds, if possible
-		x.PC = append(x.PC, cond)
-		if r2, _ := x.check(); r2 == smt.Unsat {
-			x.dead = true
-			panic(pathAbort{"assertion never holds on this path"})
+		return
+	}
+	x.deferred = append(x.deferred, deferredAssert{cond: cond, msg: msg, path: append([]decision{}, x.taken...)})
+}
+
+// Flush decides the pending assertions.
+func (x *Exec) Flush() {
+	if len(x.deferred) == 0 {
+		return
+	}
+	ds := x.deferred
+	x.deferred = nil
+	c := x.C
+	var conds []*smt.Expr
+	for _, d := range ds {
+		conds = append(conds, d.cond)
+	}
+	r, _ := x.check(c.Not(c.And(conds...)))
+	if r == smt.Unsat {
+		x.Proved += len(ds)
+		return
+	}
+	// some assertion can fail (or the batch is undecided): decide one by one
+	for _, d := range ds {
+		r, m := x.check(c.Not(d.cond))
+		switch r {
+		case smt.Unsat:
+			x.Proved++
+		case smt.Sat:
+			x.Viol = append(x.Viol, Violation{Kind: "assert", Msg: d.msg, Model: modelMap(m), Path: d.path})
+		default:
+			x.Incon = append(x.Incon, "assertion undecided: "+d.msg)
 		}
-	default:
-		x.Incon = append(x.Incon, "assertion undecided: "+msg)
 	}
 }
 
@@ -226,6 +386,7 @@ func (x *Exec) NewInput(name string, s smt.Sort) *smt.Expr {
 	x.nInput++
 	v := x.C.Var(fmt.Sprintf("%s#%d", name, x.nInput), s)
 	x.Inputs = append(x.Inputs, v)
+	x.inputSort[v.Name] = s
 	return v
 }
 
@@ -261,10 +422,147 @@ func ModelString(m map[string]uint64) string {
 	return sb.String()
 }
 
+// Worker is the per-goroutine state that survives across re-executions: the expression
+// context, the solver and the function summaries computed in that context.
+type Worker struct {
+	C          *smt.Ctx
+	P          *smt.Prover
+	Summarize  map[string]bool
+	sums       map[string]*summary
+	SumQueries int
+}
+
 type summary struct {
 	params []*smt.Expr
 	result *smt.Expr
-	kind   int
+	kind   types.BasicKind
+	bad    bool
+}
+
+// summarized applies (computing it on first use) the summary of a small pure function with
+// scalar parameters and result: all its paths are explored once on fresh parameters and merged
+// into one ite term, so that calls do not fork the caller's path.
+func (i *interpreter) summarized(fn *ssa.Function, name string, args []value) (value, bool) {
+	x := i.x
+	anySym := false
+	for _, a := range args {
+		switch a.(type) {
+		case *sym:
+			anySym = true
+		case bool, int, int8, int16, int32, int64, uint, uint8, uint16, uint32, uint64:
+		default:
+			return nil, false
+		}
+	}
+	if !anySym {
+		return nil, false
+	}
+	w := x.W
+	sum := w.sums[name]
+	if sum == nil {
+		sum = i.buildSummary(fn, name)
+		w.sums[name] = sum
+	}
+	if sum.bad {
+		return nil, false
+	}
+	m := map[string]*smt.Expr{}
+	for k, p := range sum.params {
+		m[p.Name] = x.lift(args[k]).E
+	}
+	return x.lower(x.C.Subst(sum.result, m), sum.kind), true
+}
+
+func (i *interpreter) buildSummary(fn *ssa.Function, name string) *summary {
+	outer := i.x
+	defer func() { i.x = outer }()
+	c := outer.C
+	sum := &summary{}
+	sig := fn.Signature
+	if sig.Results().Len() != 1 {
+		sum.bad = true
+		return sum
+	}
+	rk, ok := basicKindOf(sig.Results().At(0).Type())
+	if !ok || rk == types.String {
+		sum.bad = true
+		return sum
+	}
+	sum.kind = rk
+	var symArgs []value
+	for k := 0; k < sig.Params().Len(); k++ {
+		pk, ok := basicKindOf(sig.Params().At(k).Type())
+		if !ok || pk == types.String {
+			sum.bad = true
+			return sum
+		}
+		var s smt.Sort
+		if pk == types.Bool {
+			s = smt.Bool
+		} else {
+			wd, _ := kindBits(pk)
+			s = smt.BVSort(wd)
+		}
+		v := c.Var(fmt.Sprintf("sum.%s.p%d", name, k), s)
+		sum.params = append(sum.params, v)
+		symArgs = append(symArgs, &sym{E: v, K: pk, X: nil})
+	}
+	type res struct {
+		pc *smt.Expr
+		r  *smt.Expr
+	}
+	var results []res
+	queue := [][]decision{nil}
+	for len(queue) > 0 {
+		prefix := queue[len(queue)-1]
+		queue = queue[:len(queue)-1]
+		x2 := newExec(outer.C, outer.P, prefix, 100000)
+		x2.W = outer.W
+		x2.inSummary = 1
+		i.x = x2
+		args := make([]value, len(symArgs))
+		for k, a := range symArgs {
+			sa := *(a.(*sym))
+			sa.X = x2
+			args[k] = &sa
+		}
+		var out value
+		failed := false
+		func() {
+			defer func() {
+				if r := recover(); r != nil {
+					failed = true
+				}
+			}()
+			out = callSSA(i, nil, 0, fn, args, nil)
+		}()
+		if failed || len(x2.Viol) > 0 || len(x2.deferred) > 0 {
+			sum.bad = true
+			return sum
+		}
+		switch out.(type) {
+		case *sym, bool, int, int8, int16, int32, int64, uint, uint8, uint16, uint32, uint64:
+		default:
+			sum.bad = true
+			return sum
+		}
+		results = append(results, res{pc: c.And(x2.PC...), r: x2.lift(out).E})
+		queue = append(queue, x2.pending...)
+		if len(results) > 256 {
+			sum.bad = true
+			return sum
+		}
+	}
+	if len(results) == 0 {
+		sum.bad = true
+		return sum
+	}
+	r := results[len(results)-1].r
+	for k := len(results) - 2; k >= 0; k-- {
+		r = c.Ite(results[k].pc, results[k].r, r)
+	}
+	sum.result = r
+	return sum
 }
 
 // truth resolves the condition of an If instruction.
